@@ -611,8 +611,84 @@ def rule_TRIMREF(ctx, rid='S5'):
                % unparse(c)[:40])
 
 
+def rule_S6(ctx, rid='S6'):
+    """Three data-level facts of split() that S2-S4 do not cover: WHICH member is split (never a
+    blocked one), WHEN the top-up runs (as soon as ONE cluster is too small) and WHICH cluster it
+    fills (the smaller one)."""
+    ctx.rule(rid, 'split-selection: the candidate maximises over unblocked members only; the '
+             'top-up is triggered when any cluster is below the minimum and fills the smaller one')
+    f = ctx.program.func('Union.split')
+
+    def is_inf(e, sign):
+        t = unparse(e).replace('numpy', 'np')
+        return t in (('-np.inf', '-inf', "-float('inf')") if sign < 0 else
+                     ('np.inf', 'inf', "float('inf')", '+np.inf'))
+    n = 0
+    for st in walk_no_nested(f.node):
+        if not (isinstance(st, ast.Assign) and len(st.targets) == 1 and
+                isinstance(st.targets[0], ast.Name) and isinstance(st.value, ast.Call)):
+            continue
+        d = dotted(st.value.func) or ''
+        tgt = st.targets[0].id
+        if tgt == 'index' and d in ('np.argmax', 'np.argmin', 'np.nanargmax', 'np.nanargmin') \
+                and st.value.args:
+            a = st.value.args[0]
+            ctx.require(isinstance(a, ast.Call) and dotted(a.func) == 'np.where' and
+                        len(a.args) == 3, 'S6 not decided: split candidate `%s`'
+                        % unparse(st)[:60])
+            mask, rec, fill = a.args
+            unblocked = isinstance(mask, ast.UnaryOp) and isinstance(mask.op, ast.Invert) and \
+                isinstance(mask.operand, ast.Attribute) and mask.operand.attr == 'block'
+            ctx.require(unblocked or (isinstance(mask, ast.Attribute) and mask.attr == 'block'),
+                        'S6 not decided: mask `%s` of the split candidate' % unparse(mask)[:40])
+            ok = unblocked and ((d.endswith('argmax') and is_inf(fill, -1)) or
+                                (d.endswith('argmin') and is_inf(fill, +1)))
+            n += 1
+            ctx.ob(rid, 'Union.split:candidate-unblocked', ok, f.where(st),
+                   'blocked members carry the neutral element of the reduction' if ok else
+                   '`%s` can select a blocked member (the fill value wins the reduction, or the '
+                   'mask is not `~self.block`): an ellipsoid with fewer than 2 * n_points_min '
+                   'points, or one whose split was refused, is split again' % unparse(st)[:70])
+        if d in ('np.argmin', 'np.argmax') and st.value.args and tgt == 'label':
+            src = st.value.args[0]
+            counts = isinstance(src, ast.Name) and any(
+                isinstance(x, ast.Assign) and isinstance(x.targets[0], ast.Name) and
+                x.targets[0].id == src.id and isinstance(x.value, ast.Call) and
+                dotted(x.value.func) == 'np.bincount' for x in walk_no_nested(f.node)) or (
+                isinstance(src, ast.Call) and dotted(src.func) == 'np.bincount')
+            ctx.require(counts, 'S6 not decided: topped-up label `%s`' % unparse(st)[:60])
+            ok = d == 'np.argmin'
+            n += 1
+            ctx.ob(rid, 'Union.split:top-up-fills-the-smaller-cluster', ok, f.where(st),
+                   'the cluster with fewer members receives the n_points_min most likely points'
+                   if ok else 'the top-up fills the LARGER cluster: the smaller one ends with '
+                   'all remaining points or none, below the configured minimum')
+    for st in walk_no_nested(f.node):
+        if not isinstance(st, ast.If):
+            continue
+        t, neg = st.test, False
+        while isinstance(t, ast.UnaryOp) and isinstance(t.op, ast.Not):
+            neg, t = not neg, t.operand
+        if not (isinstance(t, ast.Call) and (dotted(t.func) or '') in ('np.all', 'np.any') and
+                t.args and isinstance(t.args[0], ast.Compare) and len(t.args[0].ops) == 1 and
+                any(isinstance(x, ast.Attribute) and x.attr == 'n_points_min'
+                    for x in ast.walk(t.args[0].comparators[0]))):
+            continue
+        q = dotted(t.func).split('.')[-1]
+        ge = isinstance(t.args[0].ops[0], (ast.GtE, ast.Gt))
+        # "some cluster is too small":  not all(size >= m)  |  any(size < m)
+        ok = (q == 'all' and ge and neg) or (q == 'any' and not ge and not neg)
+        n += 1
+        ctx.ob(rid, 'Union.split:top-up-when-any-cluster-is-small', ok, f.where(st),
+               'the top-up runs as soon as one cluster is below the minimum' if ok else
+               '`%s` holds only when EVERY cluster is below the minimum: a split into one large '
+               'and one too-small cluster goes through without the top-up' % unparse(st.test)[:50])
+    ctx.require(n >= 3, 'S6 found only %d of its 3 anchors in Union.split' % n)
+
+
 def run(ctx):
     rule_REC(ctx)
+    rule_S6(ctx)
     rule_RETRY(ctx)
     rule_TRIMREF(ctx)
     from ..effects import rule_G7
